@@ -1,5 +1,52 @@
+// Transformer ops (C20) and environment perturbation helpers.
 #include "transform_ops.h"
+
+#include "uscxml/transform/ChartToC.h"
+#include "uscxml/transform/ChartToPromela.h"
+#include "uscxml/transform/ChartToVHDL.h"
+#include "uscxml/util/MD5.hpp"
+
+#include <sstream>
+#include <vector>
+#include <stdlib.h>
+
 namespace h {
-std::string doTransform(uscxml::Interpreter&, const js::Value&) { return "TODO"; }
-void heapWarm(uint64_t, int) {}
+
+std::string doTransform(uscxml::Interpreter& interp, const js::Value& op) {
+	std::string kind = op["kind"].str("c");
+	// ChartToC numbers the machines it emits with a process-wide counter kept in the environment (for builds that
+	// transform several files in one process); the harness pins it so that every transformation is "the first"
+	setenv("USCXML_CURRENT_MACHINE_INDEX", op["machine_index"].str("0").c_str(), 1);
+	uscxml::Transformer t;
+	if (kind == "c") t = uscxml::ChartToC::transform(interp);
+	else if (kind == "pml") t = uscxml::ChartToPromela::transform(interp);
+	else if (kind == "vhdl") t = uscxml::ChartToVHDL::transform(interp);
+	else return "UNKNOWN-KIND";
+	std::stringstream ss;
+	t.writeTo(ss);
+	std::string out = ss.str();
+	std::string sum = uscxml::md5(out);
+	std::string tag = "i" + std::to_string(op["i"].i64(0));
+	tr::Rec r(tag, "xform");
+	r.str(kind).num((long long)out.size()).str(sum);
+	if (op["full"].boolean(false)) r.str(out);
+	return sum;
 }
+
+// seeded allocate / free pattern: separately allocated blocks change their relative order
+void heapWarm(uint64_t seed, int n) {
+	static std::vector<void*> kept;
+	uint64_t s = seed * 0x9E3779B97F4A7C15ull + 1;
+	std::vector<void*> tmp;
+	for (int i = 0; i < n; i++) {
+		s ^= s << 13; s ^= s >> 7; s ^= s << 17;
+		size_t sz = 16 + (size_t)(s % 3000);
+		void* p = malloc(sz);
+		if ((s >> 20) % 3 == 0) kept.push_back(p);
+		else tmp.push_back(p);
+	}
+	for (size_t i = 0; i < tmp.size(); i += 2) free(tmp[i]);
+	for (size_t i = 1; i < tmp.size(); i += 2) free(tmp[i]);
+}
+
+} // namespace h
